@@ -494,9 +494,30 @@ def run_grad(case):
         _expect_shape(g, (d,), 'gradient_logpdf:integer-point-input', {'req': req, 'witness': wit})
         err = max(err, _cmp_grad(model, req, x, g, 'integer-typed-point', wit, h))
         n += 1
+    # far tail of all-normal models: every conditional density is positive and the log density is finite, but the
+    # product of densities underflows to 0.0 - the gradient of the LOG density is still the plain derivative there
+    n_tail = 0
+    if all(nd['fam'] == 'norm' for nd in model['nodes']):
+        import itertools as _it
+        XT = np.array([c for c in _it.product((40.0, -40.0, 0.0, 28.0), repeat=d) if any(v != 0.0 for v in c)][:10])
+        _, _, any_bad, _ = R.joint_pdf(model, order, XT)
+        XT = XT[~any_bad]
+        XT = XT[[bool(np.all(np.isfinite(R.joint_grad(model, order, x)))) for x in XT]] if len(XT) else XT
+        if len(XT):
+            lp = np.asarray(_call(w, prior.logpdf, XT if d > 1 else XT[:, 0]), dtype=float).reshape(-1)
+            for x, l in zip(XT, lp):
+                if not np.isfinite(l):
+                    continue      # judged by the density part, not here
+                inp = np.array(x) if d > 1 else float(x[0])
+                wit = _point(model, req, 'gradient_logpdf', inp, h=h, form='point')
+                g = _call(wit, prior.gradient_logpdf, inp, stepsize=step)
+                err = max(err, _cmp_grad(model, req, x, g, 'far-tail:derivative-mismatch', wit, h))
+                n += 1
+                n_tail += 1
     bucket = 'grad_cases_maxerr_' + next((b for t, b in ((1e-8, 'lt_1e-8'), (1e-7, 'lt_1e-7'), (5e-7, 'lt_5e-7'),
                                                           (1e-6, 'lt_1e-6')) if err < t), 'ge_1e-6')
     r = ok(outcome=digest(np.round(np.asarray(G, dtype=float), 6)), grad_points=n, grad_int_points=len(XI),
+           grad_far_tail_points=n_tail,
            **{bucket: 1})
     r.update(evals=n, distinct=n)
     return r
